@@ -30,15 +30,23 @@ def cases(text):
     cs, cur = [], None
     for l in text.splitlines():
         if l.startswith("N "):
-            cur = {"k": int(l.split()[1]), "lines": [], "src": {}, "delays": ""}
+            f = l.split()
+            cur = {"P": int(f[1]), "B": int(f[2]) if len(f) > 2 else 1, "lines": [], "src": {}, "arch": {}, "delays": "", "bonds": [], "io": {}}
             cs.append(cur)
         elif cur is not None:
             cur["lines"].append(l)
             if l.startswith("D"):
                 cur["delays"] = l[2:].strip()
+            elif l.startswith("B "):
+                cur["bonds"].append(l)
+            elif l.startswith("IO "):
+                f = l.split()
+                cur["io"][(int(f[1]), f[2])] = ints(f[3]) if len(f) > 3 else []
             f = l.split(" ", 3)
             if len(f) == 4 and f[0] == "M" and f[2] == "S":
                 cur["src"].setdefault(int(f[1]), []).append(f[3])
+            if len(f) == 4 and f[0] == "M" and f[2] == "A":
+                cur["arch"][int(f[1])] = "A " + f[3]
     return cs
 
 
@@ -61,61 +69,88 @@ def stream_ok(written, got):
     return got[:n] == written[:n] and len(written) - 1 <= len(got) <= len(written) + 1
 
 
+def bond_desc(line):
+    """'B b pp op c:ip,c:ip' -> (b, pp, op, [(c, ip)]); the environment's ends have processor -1"""
+    f = line.split()
+    pi = lambda x: -1 if x == "e" else int(x)
+    return int(f[1]), pi(f[2]), int(f[3]), [(pi(c.split(":")[0]), int(c.split(":")[1])) for c in f[4].split(",")]
+
+
+def streams(lines, wtag, rtag):
+    """-> {b: written}, {(b, j): got}"""
+    W, R = {}, {}
+    for l in lines:
+        f = l.split()
+        if f and f[0] == wtag and len(f) >= 2:
+            W[int(f[1])] = ints(f[2]) if len(f) > 2 else []
+        elif f and f[0] == rtag and len(f) >= 3:
+            R[(int(f[1]), int(f[2]))] = ints(f[3]) if len(f) > 3 else []
+    return W, R
+
+
 def compare(impl, model):
     ci, cm = cases(impl), cases(model)
     st = {"with_delays": 0, "cases": len(ci), "ticks": 0, "transfers": 0, "captures": 0, "back_to_back_prod": 0, "back_to_back_cons": 0,
-          "fanout": {}, "vt_ok": 0, "rt_ok": 0, "distinct": set()}
+          "fanout": {}, "bonds_per_net": {}, "procs_per_net": {}, "relays": 0, "two_inputs_same_bond": 0, "port_not_0": 0, "env_nets": 0,
+          "vt_ok": 0, "rt_ok": 0, "hw_skipped_env": 0, "distinct": set()}
     fails = []
     if len(ci) != len(cm):
         return st, [{"kind": "oracle-desync", "detail": "%d vs %d cases" % (len(ci), len(cm))}]
     for a, b in zip(ci, cm):
-        k = a["k"]
-        st["fanout"][str(k)] = st["fanout"].get(str(k), 0) + 1
-        srcs = [a["src"].get(i, []) for i in range(k + 1)]
-        base = {"k": k, "src": srcs, "delays": a.get("delays", "")}
+        P = a["P"]
+        bonds = [bond_desc(l) for l in a["bonds"]]
+        srcs = [a["src"].get(i, []) for i in range(P)]
+        base = {"env": next((l for l in a["lines"] if l.startswith("ENV ")), "ENV 0"), "P": P, "src": srcs, "arch": [a["arch"].get(i, "") for i in range(P)], "bonds": a["bonds"], "delays": a.get("delays", "")}
+        st["bonds_per_net"][str(len(bonds))] = st["bonds_per_net"].get(str(len(bonds)), 0) + 1
+        st["procs_per_net"][str(P)] = st["procs_per_net"].get(str(P), 0) + 1
+        for (bi, pp, op, cons) in bonds:
+            st["fanout"][str(len(cons))] = st["fanout"].get(str(len(cons)), 0) + 1
+            st["port_not_0"] += (op != 0) + sum(1 for (_, ip) in cons if ip != 0)
+            st["two_inputs_same_bond"] += len(cons) != len(set(c for c, _ in cons))
+        st["env_nets"] += any(pp < 0 or any(c < 0 for c, _ in cons) for (_, pp, _, cons) in bonds)
+        prods = set(pp for (_, pp, _, _) in bonds if pp >= 0)
+        st["relays"] += len(prods & set(c for (_, _, _, cons) in bonds for (c, _) in cons))
         if a.get("delays"):
-            st["with_delays"] = st.get("with_delays", 0) + 1
+            st["with_delays"] += 1
         for i, s in enumerate(srcs):
             for x, y in zip(s, s[1:]):
                 if x.split()[0] == y.split()[0] and x.split()[0] in ("r2owa", "i2rw"):
-                    st["back_to_back_prod" if i == 0 else "back_to_back_cons"] += 1
-        io = {}
-        for l in a["lines"]:
-            f = l.split()
-            if len(f) >= 3 and f[0] == "M" and f[2] == "IO":
-                io[int(f[1])] = ints(f[3]) if len(f) > 3 else []
+                    st["back_to_back_prod" if x.split()[0] == "r2owa" else "back_to_back_cons"] += 1
         G = [l for l in a["lines"] if l.startswith("G ")]
         g = [l for l in b["lines"] if l.startswith("g ")]
-        ok = True
         for t, (x, y) in enumerate(zip(G, g)):
             if x == "G err":
                 fails.append(dict(base, kind="impl-error", tick=t, impl=x, model=y))
-                ok = False
                 break
             dx, dy = kvs(x), kvs(y)
             pre, post = ints(dx["pre"]), ints(dx["post"])
-            dl = ints(dx.get("dl", "")) or [0] * (k + 1)
-            ps = "1" if (pre[0] in io.get(0, []) and dl[0] == 0 and post[0] != pre[0]) else "0"
-            cs = ",".join("1" if (pre[i] in io.get(i, []) and dl[i] == 0 and post[i] != pre[i]) else "0" for i in range(1, k + 1))
+            dl = ints(dx.get("dl", "")) or [0] * P
             st["ticks"] += 1
-            st["transfers"] += ps == "1"
-            st["captures"] += cs.count("1")
-            st["distinct"].add((tuple(map(tuple, srcs)), t))
-            if (dx["v"], dx["r"], dx["df"], ps, cs) != (dy["v"], dy["r"], dy["df"], dy["ps"], dy["cs"]):
-                fails.append(dict(base, kind="sim-correspondence", tick=t, impl=x + " ps=%s cs=%s" % (ps, cs), model=y))
-                ok = False
+            st["distinct"].add((tuple(map(tuple, srcs)), tuple(a["bonds"]), t))
+            bad = False
+            for (bi, pp, op, cons) in bonds:
+                k = str(bi)
+                ps, cs = dx["ps" + k], dx["cs" + k]
+                st["transfers"] += ps == "1"
+                st["captures"] += cs.count("1")
+                # (the name under which the simulator keeps its deferred closure is not compared: df is informative only)
+                if (dx["v" + k], dx["r" + k], ps, cs) != (dy["v" + k], dy["r" + k], dy["ps" + k], dy["cs" + k]):
+                    fails.append(dict(base, kind="sim-correspondence", tick=t, bond=bi, impl=x, model=y))
+                    bad = True
+                    break
+            if bad:
                 break
-        W = next((ints(l[2:].strip()) for l in a["lines"] if l.startswith("W")), [])
-        for l in a["lines"]:
-            if l.startswith("R "):
-                f = l.split()
-                got = ints(f[2]) if len(f) > 2 else []
-                if not stream_ok(W, got):
-                    fails.append(dict(base, kind="property-fails-on-impl", world="Go simulator", written=W, consumer=int(f[1]), got=got,
-                                      why="consumer %s captured %s but the producer wrote %s" % (f[1], got, W)))
+        W, R = streams(a["lines"], "W", "R")
+        for (bi, j), got in sorted(R.items()):
+            if not stream_ok(W.get(bi, []), got):
+                fails.append(dict(base, kind="property-fails-on-impl", world="Go simulator", bond=bi, written=W.get(bi, []), consumer=j, got=got,
+                                  why="consumer %d of bond %d captured %s but the producer wrote %s" % (j, bi, got, W.get(bi, []))))
         # hardware
         rt = next((l for l in b["lines"] if l.startswith("RT ")), "RT missing")
         vt = next((l for l in b["lines"] if l.startswith("VT ")), "VT missing")
+        if rt.startswith("RT skipped") and vt.startswith("VT skipped"):
+            st["hw_skipped_env"] += 1
+            continue
         if rt.startswith("RT ok"):
             st["rt_ok"] += 1
         else:
@@ -124,20 +159,20 @@ def compare(impl, model):
             st["vt_ok"] += 1
         else:
             fails.append(dict(base, kind="hdl-correspondence", detail=vt))
-        VW = next((ints(l[3:].strip()) for l in b["lines"] if l.startswith("VW")), None)
-        if VW is not None:
-            for l in b["lines"]:
-                if l.startswith("VR "):
-                    f = l.split()
-                    got = ints(f[2]) if len(f) > 2 else []
-                    if not stream_ok(VW, got):
-                        fails.append(dict(base, kind="property-fails-on-impl", world="emitted Verilog under BMV.Vlog", written=VW,
-                                          consumer=int(f[1]), got=got,
-                                          why="hardware consumer %s captured %s but the producer wrote %s" % (f[1], got, VW)))
-            # a net that stops moving while everybody keeps requesting is a deadlock
-            if len(G) >= 120 and len(VW) == 0 and len(W) > 0:
-                fails.append(dict(base, kind="property-fails-on-impl", world="emitted Verilog under BMV.Vlog", written=VW, consumer=0, got=[],
-                                  why="the hardware net transferred nothing in %d clocks while the simulator transferred %d values" % (len(G), len(W))))
+        VW, VR = streams(b["lines"], "VW", "VR")
+        for (bi, j), got in sorted(VR.items()):
+            if not stream_ok(VW.get(bi, []), got):
+                fails.append(dict(base, kind="property-fails-on-impl", world="emitted Verilog under BMV.Vlog", bond=bi, written=VW.get(bi, []),
+                                  consumer=j, got=got,
+                                  why="hardware consumer %d of bond %d captured %s but the producer wrote %s" % (j, bi, got, VW.get(bi, []))))
+        # a bond that stops moving in hardware while it keeps moving in the simulator is a deadlock
+        if VW and len(G) >= 120:
+            for bi, w in sorted(W.items()):
+                if len(w) >= 3 and len(VW.get(bi, [])) == 0 and vt.startswith("VT"):
+                    fails.append(dict(base, kind="property-fails-on-impl", world="emitted Verilog under BMV.Vlog", bond=bi, written=[], consumer=0, got=[],
+                                      why="bond %d transferred nothing in %d clocks of the hardware net while the simulator transferred %d values"
+                                          % (bi, len(G), len(w))))
+                    break
     return st, fails
 
 
@@ -155,8 +190,11 @@ def replay_case(hbin, case, ticks=200):
     d = vlib.scratch_dir("c04")
     f = os.path.join(d, "replay.txt")
     with open(f, "w") as fh:
-        fh.write("N %d\nTICKS %d\nD %s\n" % (case["k"], ticks, case.get("delays", "")))
+        fh.write("N %d %d\nTICKS %d\nD %s\n%s\n" % (case["P"], len(case["bonds"]), ticks, case.get("delays", ""), case.get("env", "ENV 0")))
+        for l in case["bonds"]:
+            fh.write(l + "\n")
         for i, s in enumerate(case["src"]):
+            fh.write("M %d %s\n" % (i, case["arch"][i]))
             for l in s:
                 fh.write("M %d S %s\n" % (i, l))
     impl, model = run_pair(hbin, ["replay", f])
@@ -180,20 +218,23 @@ def run(rep):
                    "BMV.Vlog + harness/vlog: the meaning of the emitted Verilog (docs/Vlog.md); the bond wiring between processors is done by the "
                    "oracle as Write_verilog_main does it (that wiring is C02's subject)"])
     rep.assumptions += [
-        "one producer output bonded to k >= 1 consumer inputs; agents are busy (any non-IO code, any duration) or at an IO instruction of this bond",
+        "per bond: one producer output bonded to k >= 1 consumer inputs; agents are busy (any non-IO code, any duration, IO on OTHER bonds included) or at an IO instruction of this bond; the nets of the correspondence have several bonds, each replayed on its own instance of the protocol model",
         "relative speeds are varied through instruction padding and through simbox per-opcode delays (one certain value per opcode; "
         "random distributions are not used so that runs replay)",
         "sicv3 (also anchored) is not modelled; liveness (no deadlock under every fair schedule) is proved for both protocol "
         "models (no_deadlock_isa / no_deadlock_rtl) and additionally observed on the implementation (a net that stops transferring is reported)",
     ]
-    tot = {"with_delays": 0, "cases": 0, "ticks": 0, "transfers": 0, "captures": 0, "back_to_back_prod": 0, "back_to_back_cons": 0, "vt_ok": 0, "rt_ok": 0}
-    fan, distinct, fails, samples = {}, set(), [], []
+    tot = {"with_delays": 0, "cases": 0, "ticks": 0, "transfers": 0, "captures": 0, "back_to_back_prod": 0, "back_to_back_cons": 0,
+           "relays": 0, "two_inputs_same_bond": 0, "port_not_0": 0, "env_nets": 0, "vt_ok": 0, "rt_ok": 0, "hw_skipped_env": 0}
+    hist = {"fanout": {}, "bonds_per_net": {}, "procs_per_net": {}}
+    distinct, fails, samples = set(), [], []
 
     def absorb(st):
         for k in tot:
             tot[k] += st[k]
-        for k, v in st["fanout"].items():
-            fan[k] = fan.get(k, 0) + v
+        for h in hist:
+            for k, v in st[h].items():
+                hist[h][k] = hist[h].get(k, 0) + v
         distinct.update(st["distinct"])
 
     if os.path.exists(_oracle()):
@@ -208,31 +249,34 @@ def run(rep):
         absorb(st)
         fails += fs
         c0 = cases(impl)[0]
-        samples.append({"k": c0["k"], "programs": [c0["src"].get(i, []) for i in range(c0["k"] + 1)],
+        samples.append({"processors": c0["P"], "bonds": c0["bonds"], "programs": [c0["src"].get(i, []) for i in range(c0["P"])],
                         "first_ticks": [l for l in c0["lines"] if l.startswith("G ")][:8],
-                        "written": next((l for l in c0["lines"] if l.startswith("W")), "")})
+                        "written": [l for l in c0["lines"] if l.startswith("W ")]})
     rep.coverage.update({
         "evaluations": tot["ticks"],
         "distinct_nontrivial": len(distinct),
-        "rule": "seeded random nets: 1 producer + k in 1..3 consumers, 1..3 IO instructions per loop, 0..4 nops of padding around each, "
-                "one third of the IO instructions doubled back-to-back on the same port; non-trivial/distinct = distinct (programs, tick) "
-                "at which the real VM and the protocol model were compared",
+        "rule": "seeded random nets: 2..5 processors with 0..4 inputs / outputs each, 1..4 bonds (40% of the nets: one producer fanned out to "
+                "1..3 consumers) on arbitrary ports, fan-out 1..4, 40% of the nets with BondMachine inputs / outputs driven by an environment that follows the protocol with a seeded stall pattern, chains of processors that read and write, two inputs of one consumer on "
+                "one bond; every processor walks its bonds in increasing order once per loop (dead-lock free), 0..3 nops of padding, one "
+                "third of the bonds accessed twice back to back by all parties, half of the nets with per-opcode simulated latencies; "
+                "non-trivial/distinct = distinct (net, tick) at which the real VM and the protocol model were compared",
         "samples": samples or [{"note": "correspondence did not run"}],
         "traces_validated_against_impl": tot["cases"],
-        "input_distribution": dict(tot, fanout=fan),
+        "input_distribution": dict(tot, **hist),
     })
     real = [f for f in fails if f["kind"] == "property-fails-on-impl"]
     other = [f for f in fails if f["kind"] != "property-fails-on-impl"]
+    net = lambda f: {k: f.get(k) for k in ("P", "arch", "bonds", "src", "delays", "env")}
     if real:
         f = real[0]
-        rep.violation({"property": PROP, "kind": f["kind"], "k": f["k"], "src": f["src"], "delays": f.get("delays", ""), "world": f["world"], "written": f["written"],
-                       "consumer": f["consumer"], "got": f["got"], "why": f["why"], "other_failing_cases": len(real) - 1})
+        rep.violation(dict(net(f), property=PROP, kind=f["kind"], world=f["world"], bond=f["bond"], written=f["written"],
+                           consumer=f["consumer"], got=f["got"], why=f["why"], other_failing_cases=len(real) - 1))
     elif other or not pr["ok"]:
         broken = list(pr["broken"])
         detail = None
         if other:
             f = other[0]
-            detail = {k: f.get(k) for k in ("kind", "k", "src", "delays", "tick", "impl", "model", "detail")}
+            detail = dict(net(f), **{k: f.get(k) for k in ("kind", "tick", "bond", "impl", "model", "detail")})
             names = {"sim-correspondence": "BMV.Hs.Isa vs bondmachine.VM", "hdl-correspondence": "BMV.Hs.Rtl vs emitted Verilog under BMV.Vlog",
                      "rtl-model-correspondence": "BMV.Hs.Rtl vs net of BMV.Rtl.cycle"}
             broken.append("correspondence: " + names.get(f["kind"], f["kind"]))
@@ -250,5 +294,5 @@ def replay(rep, path):
     rep.coverage.update({"evaluations": max(1, st["ticks"]), "distinct_nontrivial": max(2, len(st["distinct"])),
                          "rule": "replay of " + path, "samples": [case.get("src")]})
     for f in fs:
-        rep.violation({"property": PROP, "kind": f["kind"], "k": f["k"], "src": f["src"], "detail": {k: v for k, v in f.items() if k not in ("src",)}},
+        rep.violation({"property": PROP, "kind": f["kind"], "src": f["src"], "detail": {k: v for k, v in f.items() if k not in ("src",)}},
                       no_failing_input=f["kind"] != "property-fails-on-impl")
